@@ -213,6 +213,8 @@ class Printer:
             return e["n"]
         if k == "gconst":
             return e["p"]
+        if k == "kconst":
+            return e["n"]
         if k == "flit":
             assert e["e"] >= 0
             return "%d.0%s" % (e["m"] * (1 << e["e"]), e["ty"] if e.get("sfx", True) else "")
@@ -316,6 +318,12 @@ def print_program(prog):
             for v, ts in t["vs"]:
                 vs.append(v + ("(%s)" % ", ".join(roto_ty(x) for x in ts) if ts else ""))
             out.append("enum %s%s { %s }" % (t["n"], gen, ", ".join(vs)))
+    # script constants: declaration order is free (some in front of the functions, some behind them)
+    consts = prog.get("consts", [])
+    tail = []
+    for c in consts:
+        line = "const %s: %s = %s;" % (c["n"], roto_ty(c["ty"]), p.ex(c["e"]))
+        (tail if c.get("late") else out).append(line)
     for name, f in prog["fns"].items():
         params = ", ".join("%s: %s" % (n, roto_ty(t)) for n, t in zip(f["ps"], f["pts"]))
         if f.get("kind") == "filtermap":
@@ -323,7 +331,7 @@ def print_program(prog):
         else:
             rt = "" if f["rt"] == "unit" else " -> %s" % roto_ty(f["rt"])
             out.append("fn %s(%s)%s %s" % (name, params, rt, p.blk(f["b"])))
-    return "\n".join(out) + "\n"
+    return "\n".join(out + tail) + "\n"
 
 
 # constants registered by the harness runtime (harness/src/bin/sem.rs): path -> (type, value)
@@ -338,4 +346,5 @@ def gconst_table():
 def spec_program(prog):
     """the part of a program the specification needs: function table with parameter names and bodies, and the
     registry of host constants"""
-    return {"fns": {n: {"ps": f["ps"], "b": f["b"]} for n, f in prog["fns"].items()}, "consts": gconst_table()}
+    return {"fns": {n: {"ps": f["ps"], "b": f["b"]} for n, f in prog["fns"].items()}, "consts": gconst_table(),
+            "kconsts": {c["n"]: c["e"] for c in prog.get("consts", [])}}
